@@ -65,6 +65,8 @@ def one(case):
                       "spec": float(np.abs(np.linalg.eigvalsh((X + X.T) / 2) - w0).max() / scale),
                       "herm": float(np.abs(X - X.T).max() / scale)})
     out["steps"] = steps
+    if steps and "raised" not in out:
+        out["probe"] = L.apply_probe(mpo, [1, 1] if case["qn"] else 0, case["seed"] % 1000)
     out["order"] = [b.dof for b in mpo.model.basis]
     out["bond_dims"] = [int(x) for x in mpo.bond_dims]
     return out
